@@ -35,8 +35,11 @@ package heuristic
 //@   ensures freshslice(result) && len(result) == len(textBlocks) && forall(i, 0 <= i && i < len(result), result[i] != nil)
 //@   loop 0 invariant 0 <= i && i <= len(textBlocks) && freshslice(reps) && len(reps) == i && forall(k, 0 <= k && k < len(reps), reps[k] != nil) && f != nil
 //@   loop 0 decreases len(textBlocks) - i
-//@   loop 1 invariant currentNode != nil && currentParent == currentNode.Parent && currentParent != nil && curRoot(currentNode) == curRoot(firstWord(textBlocks[0]))
+//@   loop 1 invariant currentNode != nil && currentParent == currentNode.Parent
+//@   loop 1 invariant curRoot(currentNode) == curRoot(firstWord(textBlocks[0]))
+//@   loop 1 invariant currentParent != nil
 //@   loop 1 invariant implies(i > 0, prevNode != nil && curRoot(prevNode) == curRoot(firstWord(textBlocks[0])))
+//@   loop 1 invariant implies(i > 0, isAnc(curRoot(currentNode), prevNode)) && implies(i + 1 < len(textBlocks), isAnc(curRoot(currentNode), nextNode))
 //@   loop 1 invariant implies(i + 1 < len(textBlocks), nextNode != nil && curRoot(nextNode) == curRoot(firstWord(textBlocks[0])))
 //@   loop 1 invariant 0 <= i && i < len(textBlocks) && freshslice(reps) && len(reps) == i && forall(k, 0 <= k && k < len(reps), reps[k] != nil) && f != nil
 
@@ -143,3 +146,12 @@ package heuristic
 //@   loop 0 invariant blocksOKs(textBlocks)
 //@   loop 0 invariant forall(k, 0 <= k && k < len(textBlocks), blockDeep(textBlocks[k]))
 //@   loop 0 decreases len(textBlocks) - i
+
+//@ func (*SimilarSiblingContent).areSameTag(left, right)
+//@   requires f != nil && left != nil && right != nil
+//@   assigns nothing
+
+//@ func NewDocumentTitleMatch(wc, titles)
+//@   requires wc != nil
+//@   ensures result != nil && fresh(result) && result.potentialTitles != nil && result.wordCounter == wc
+//@   loop 0 invariant dtm.potentialTitles != nil && dtm.wordCounter == wc && wc != nil
